@@ -6,8 +6,14 @@ VERIF = os.path.dirname(os.path.abspath(__file__))
 CLAIMED = {
     "C01": ("hist", "seeded search over operation histories (several live worlds, entry points, batching, failing requests, allocation faults) with a stateless reference oracle; minimised replay",
             "3 (C01)"),
+    "C07": ("hist+buggify", "buggify-style seeded skipping of fast paths (hooks S1-S8) on a twin world, placed points along generated slabs/faults/depth surfaces, twin-equality oracle; minimised replay",
+            "3 (C07), 2.6"),
+    "C15": ("hist", "seeded histories on worlds with hidden RNG state: twins interleaved differently with other worlds, mt19937 engine-state model checked after every operation, validity invariants; minimised replay",
+            "3 (C15)"),
+    "C16": ("hist+fs", "seeded histories through native/C/C++ handles created in twins; responses, failures and the simulated file layer's effect trace of create_world compared; open-failure faults; minimised replay",
+            "3 (C16)"),
 }
-PLANNED = {k: "check under construction in this session (deterministic-simulation engine designed in DESIGN.md section 3, not yet registered)" for k in ("C07", "C12", "C14", "C15", "C16", "C17", "C18")}
+PLANNED = {k: "check under construction in this session (deterministic-simulation engine designed in DESIGN.md section 3, not yet registered)" for k in ("C12", "C14", "C17", "C18")}
 NA = {
     "C02": "pure function of (feature list, point): no schedule, fault, I/O delivery or history in the statement; deciding it needs input generation against a reference painter, which is a different technique",
     "C03": "closed form in the file's constants, pure function of (file, point); its 'however the request is batched' clause is exercised by C01's block oracle but the property as a whole has nothing to simulate",
@@ -23,9 +29,15 @@ NA = {
     "C20": "physical envelope of a pure function of model parameters",
 }
 LEVEL_TEXT = {
+    "C07": "Exploration: per run a generated slab/fault/depth-surface world is built twice, once as shipped and once with a seeded subset of the acceleration shortcuts switched off through guarded hooks; hundreds of points placed by the planar construction (deep end, top end, interior) plus uniform ones are asked of both. Any answer that differs is a point a shortcut discarded. Sampling, not proof; model-level min/max pre-tests are not buggified.",
+    "C15": "Exploration: the hidden engine state makes answers history-dependent by design; runs search over seeds, query sequences and interleavings with other worlds, and check twin equality bit for bit, the engine state against an independent mt19937 advanced by the documented number of draws after every operation, seed sensitivity, and rotation/size/bounds validity.",
+    "C16": "Exploration under ASan/UBSan: every function of the C API and the C++ wrapper is driven next to a native twin created with the same arguments; bit-identical responses, identical failures, and identical file effects (which paths are opened for writing with which bytes) make 'every argument reaches the world unchanged' observable.",
     "C01": "Exploration: thousands of seeded histories per run, each response compared bit for bit with a stateless reference; the bug class (state leaking from one request, world or entry point into another) only shows for particular op orders, which the seed searches and the minimiser reduces to the 2-3 ops that matter. Not a proof: histories are sampled.",
 }
 NOTE = {
+    "C07": "Trusted: the un-culled evaluation (shortcuts off) is the reference; S8 pairs are compared within 1e-9 relative with exact tags; a pair where only one side throws is counted as inconclusive (reported in evidence), not as a violation.",
+    "C15": "Trusted: libstdc++'s mt19937/uniform_real_distribution (2 engine calls per double); draw counts are predicted only for box-shaped features where membership is trivial, twins cover slabs/faults and corpus files; generated sizes and bounds are dyadic so the JSON parser stores exactly what was written.",
+    "C16": "Trusted: the native World is the reference; the C handle is known to be a World* (used only to read the engine state); output files are captured by the simulated file layer, no real directory is touched.",
     "C01": "Trusted: the reference is the same library asked only stand-alone single-property questions on fresh worlds (checked forward and reverse); corpus = repository's own world files + generated worlds without random models; clang ASan/UBSan for the 15% sanitizer sample.",
 }
 
